@@ -94,7 +94,7 @@ Definition exec (s : step) (f : fs) : fs * bool * list ev :=
   | SMkdir d =>
       (match d with
        | None => f
-       | Some x => if mems x (dirs f) then f else mkfs (dirs f ++ [x]) (files f)
+       | Some x => if mems x (dirs f) then f else mkfs (x :: dirs f) (files f)
        end, false, [EMkdir d])
   | SCreate p => (set_file p (Partial 0) f, false, [ECreate p])
   | SWrite p c n => (set_file p c f, false, [EWrite p])
